@@ -314,6 +314,11 @@ pub fn independent_decode(c: Cont, w: &Written) -> Result<Indep, String> {
 					header_issues.push(format!("the PMTiles header counts {h} {name}, the directories hold {a}"));
 				}
 			}
+			if d.clustered {
+				if let Some(at) = &d.not_clustered_at {
+					header_issues.push(format!("the PMTiles header sets the 'clustered' flag, but the tile data is not in tile-id order ({at})"));
+				}
+			}
 			Ok(Indep { tiles: d.tiles, format, compression, meta: Some(d.meta), note: format!("{} leaf levels, clustered={}", d.leaf_levels, d.clustered), header_issues })
 		}
 		Cont::Mbtiles => {
